@@ -1,13 +1,16 @@
 // C20: macro expansion rewrites exactly the macro calls and leaves other code unchanged.
 //
 // (a) macro-free code (generated text and standard-library files) goes through
-//     MacroExpandCodewalk of both interpreters and must come out structurally equal up
-//     to norm (ParenExpr / ExprStmt / DeclStmt wrappers, single-statement blocks without
-//     declaration or :=, empty statements).
+//
+//	MacroExpandCodewalk of both interpreters and must come out structurally equal up
+//	to norm (ParenExpr / ExprStmt / DeclStmt wrappers, single-statement blocks without
+//	declaration or :=, empty statements).
+//
 // (b) programs with randomly generated macros (0..3 parameters; results: nothing, one
-//     node, a node list, calls of other macros) are compared with a reference expander
-//     that works on the program *text*: the expected expansion is rendered as plain Go
-//     and parsed by go/parser.
+//
+//	node, a node list, calls of other macros) are compared with a reference expander
+//	that works on the program *text*: the expected expansion is rendered as plain Go
+//	and parsed by go/parser.
 package c20
 
 import (
@@ -91,9 +94,7 @@ func canonList(ns []ast.Node) string {
 		}
 		s := dumpNode(n, normOpt)
 		if s == "[]" { // empty statement / empty block at top level contributes nothing
-			if _, isBlock := unwrapTrivial(n).(*ast.BlockStmt); !isBlock {
-				continue
-			}
+			continue
 		}
 		if !first {
 			b.WriteString(" ")
@@ -222,7 +223,10 @@ func hasWrapper(src string) bool {
 }
 
 func TestMacroFreeGenerated(t *testing.T) {
-	rec.Check(t, rec.Scale(500, 4000), func(rt *rapid.T) {
+	ran, want := 0, rec.Scale(300, 3000)
+	defer func() { ranAll(t, &ran, want) }()
+	rec.Check(t, want, func(rt *rapid.T) {
+		ran++
 		x := &g{t: rt, c: &qcase{}, holes: false, labels: map[string]int{}}
 		d := 1 + x.intn(3, "size")
 		src, _ := x.stmtList(d, 1, 1, 4)
@@ -307,7 +311,7 @@ func TestMacroFreeCorpus(t *testing.T) {
 		rec.Note("standard library sources not found: corpus part skipped")
 		return
 	}
-	stride := rec.Scale(24, 1) // quick: every 24th file (rotated by the seed), thorough: all
+	stride := rec.Scale(48, 1) // quick: every 24th file (rotated by the seed), thorough: all
 	p := newPair()
 	idx := 0
 	for i, path := range files {
@@ -396,13 +400,14 @@ func nodeText(src string, p *pair, n ast.Node) string {
 
 // item: one statement of a program or of a macro body.
 type item struct {
-	kind  int      // iPlain, iMacro, iParam, iCompound, iQuote
-	text  string   // iPlain: statement text; iMacro: macro name
-	param int      // iParam
-	parts []string // iCompound / iQuote: parts[0] list0 parts[1] list1 ... parts[n]
-	lists [][]item
-	block bool   // iCompound that is a plain block {...}
-	qop   string // iQuote: "~quote", "~quasiquote", "~unquote"
+	kind    int      // iPlain, iMacro, iParam, iCompound, iQuote
+	text    string   // iPlain: statement text; iMacro: macro name
+	param   int      // iParam
+	parts   []string // iCompound / iQuote: parts[0] list0 parts[1] list1 ... parts[n]
+	lists   [][]item
+	block   bool   // iCompound that is a plain block {...}
+	clauses bool   // iCompound whose lists are case clause bodies
+	qop     string // iQuote: "~quote", "~quasiquote", "~unquote"
 }
 
 const (
@@ -481,16 +486,24 @@ func subst(l []item, args []item) []item {
 }
 
 type expander struct {
-	macros    map[string]*macroDef
-	tooFew    bool
-	steps     int
-	nestedGen bool // a macro call that came out of another expansion was expanded
-	inList    bool // a call inside a nested list was expanded
-	inQuote   bool
+	macros      map[string]*macroDef
+	tooFew      bool
+	steps       int
+	nestedGen   bool // a macro call that came out of another expansion was expanded
+	inList      bool // a call inside a nested list was expanded
+	inQuote     bool
+	runaway     bool
+	loneCall    bool
+	lostInQuote bool
+	// a case / default clause body that is not empty and expands to nothing (F-C20-3)
+	emptyClause bool
 }
 
 // expandList is the reference expander for one statement list at quasiquote depth 0.
 func (e *expander) expandList(l []item, nested bool) []item {
+	if nested && len(l) == 1 && l[0].kind == iMacro && e.macros[l[0].text] != nil {
+		e.loneCall = true // F-C20-1 shape, possibly produced by a substitution
+	}
 	for {
 		var out []item
 		expanded := false
@@ -519,14 +532,17 @@ func (e *expander) expandList(l []item, nested bool) []item {
 			if nested {
 				e.inList = true
 			}
-			if e.steps > 200 {
-				e.tooFew = true // runaway: treated as outside the generated domain
+			if e.steps > 60 {
+				e.tooFew, e.runaway = true, true // too large: outside the generated domain
 				return l
 			}
 		}
 		l = out
 		if !expanded {
 			break
+		}
+		if len(l) == 1 && l[0].kind == iMacro && e.macros[l[0].text] != nil {
+			e.loneCall = true // the list shrank to one macro name: same shape
 		}
 		// another round: calls produced by the expansion
 		for _, it := range l {
@@ -557,6 +573,9 @@ func (e *expander) descend(it item, qd int) item {
 			if e.tooFew {
 				return it
 			}
+			if it.clauses && len(ll) > 0 && len(c.lists[i]) == 0 {
+				e.emptyClause = true
+			}
 		}
 		return c
 	case iQuote:
@@ -576,7 +595,13 @@ func (e *expander) descend(it item, qd int) item {
 		c.lists = make([][]item, len(it.lists))
 		for i, ll := range it.lists {
 			if qd <= 0 {
+				before := e.steps
 				c.lists[i] = e.expandList(ll, true)
+				if r := c.lists[i]; e.steps > before && len(r) == 1 && r[0].kind == iQuote && r[0].qop != "~quote" {
+					// F-C20-4 shape: the list below a quote form expanded down to one
+					// ~quasiquote / ~unquote form
+					e.lostInQuote = true
+				}
 			} else {
 				c.lists[i] = e.descendList(ll, qd)
 			}
@@ -642,7 +667,7 @@ func (x *mg) compound(d int, inBody bool, nparam int) item {
 		return item{kind: iCompound, parts: []string{fmt.Sprintf("for c%d {", n), "}"}, lists: [][]item{l1}}
 	case 3:
 		l2 := x.list(d-1, inBody, nparam, 0, 2)
-		return item{kind: iCompound, parts: []string{fmt.Sprintf("switch t%d { case 1: ", n), "\ndefault: ", "}"}, lists: [][]item{l1, l2}}
+		return item{kind: iCompound, parts: []string{fmt.Sprintf("switch t%d { case 1: ", n), "\ndefault: ", "}"}, lists: [][]item{l1, l2}, clauses: true}
 	case 4:
 		return item{kind: iCompound, parts: []string{fmt.Sprintf("g%d(func() {", n), "})"}, lists: [][]item{l1}}
 	default:
@@ -774,9 +799,36 @@ func genMacroCase(rt *rapid.T) (*mcase, *expander) {
 	return c, e
 }
 
+// ranAll fails the test (no violation recorded: the driver reports INCONCLUSIVE) when
+// rapid stopped early because the test deadline was near.
+func ranAll(t *testing.T, ran *int, want int) {
+	if !rec.ReplayOnly() && !t.Failed() && *ran < want {
+		t.Fatalf("inconclusive: only %d of %d cases ran before the deadline", *ran, want)
+	}
+}
+
 func TestMacros(t *testing.T) {
-	rec.Check(t, rec.Scale(700, 6000), func(rt *rapid.T) {
+	ran, want := 0, rec.Scale(500, 5000)
+	defer func() { ranAll(t, &ran, want) }()
+	rec.Check(t, want, func(rt *rapid.T) {
+		ran++
 		c, e := genMacroCase(rt)
+		if e.runaway {
+			rec.Label("excluded:expansion-larger-than-60-steps")
+			return
+		}
+		if e.loneCall && rec.Known("F-C20-1") {
+			rec.Excluded("F-C20-1")
+			return
+		}
+		if e.lostInQuote && rec.Known("F-C20-4") {
+			rec.Excluded("F-C20-4")
+			return
+		}
+		if e.emptyClause && rec.Known("F-C20-3") {
+			rec.Excluded("F-C20-3")
+			return
+		}
 		if os.Getenv("C20_TRACE") != "" {
 			fmt.Fprintf(os.Stderr, "TRACE %s\n", c.bytes())
 		}
